@@ -13,8 +13,11 @@ Proved here, for ALL inputs of the model:
   * the way back emits one predication per node in order, so the round trip returns the
     predications in source order with predicate/constant/lnk/surface/base unchanged and no
     icons (`fromDmrs_rels`, `roundtrip_predications`).
-Not proved (direct oracle + correspondence only): isomorphism of `fromDmrs (fromMrs m)` with the
-stripped source, equality of the second conversion.
+Proved in the later modules (not here): isomorphism of `fromDmrs (fromMrs m)` with the stripped
+source by ONE variable map (`roundtrip_iso`, PropsIso.lean; `roundtrip_iso_src`, PropsSrc.lean),
+stability of the second conversion (`second_conversion_stable`, PropsRT.lean;
+`second_conversion_stable_src`, PropsSrc.lean), totality of the way back and of the second
+conversion (`roundtrip_total`, `second_conversion_total`, PropsSrc.lean).
 -/
 import Verif.C04.Lemmas
 import Verif.Generated.TablesC04
